@@ -490,7 +490,9 @@ func (p *Parser) parseWhere(stmt *SelectStatement) error {
 	}
 
 	// Set max iterations limit to prevent infinite loops
-	maxIterations := 100
+	// every iteration consumes at least one token, so a clause cannot need more iterations than the
+	// statement has bytes; a fixed cap of 100 silently dropped long predicates (the error is recoverable)
+	maxIterations := len(p.input) + 100
 	iterations := 0
 
 	for {
@@ -562,7 +564,9 @@ func (p *Parser) parseWindowFunction(stmt *SelectStatement, winType string) erro
 	}
 
 	var params []any
-	maxIterations := 100
+	// every iteration consumes at least one token, so a clause cannot need more iterations than the
+	// statement has bytes; a fixed cap of 100 silently dropped long predicates (the error is recoverable)
+	maxIterations := len(p.input) + 100
 	iterations := 0
 
 	// Parse parameters until we find the closing parenthesis
@@ -1006,7 +1010,9 @@ func (p *Parser) parseGroupBy(stmt *SelectStatement) error {
 	}
 
 	// 设置最大次数限制，防止无限循环
-	maxIterations := 100
+	// every iteration consumes at least one token, so a clause cannot need more iterations than the
+	// statement has bytes; a fixed cap of 100 silently dropped long predicates (the error is recoverable)
+	maxIterations := len(p.input) + 100
 	iterations := 0
 
 	var limitToken *Token // 保存LIMIT token以便后续处理
@@ -1108,7 +1114,9 @@ func (p *Parser) parseWith(stmt *SelectStatement) error {
 	p.lexer.NextToken() // 跳过(
 
 	// 设置最大次数限制，防止无限循环
-	maxIterations := 100
+	// every iteration consumes at least one token, so a clause cannot need more iterations than the
+	// statement has bytes; a fixed cap of 100 silently dropped long predicates (the error is recoverable)
+	maxIterations := len(p.input) + 100
 	iterations := 0
 
 	for p.lexer.peekChar() != ')' {
@@ -1531,7 +1539,9 @@ func (p *Parser) parseHaving(stmt *SelectStatement) error {
 	}
 
 	// 设置最大次数限制，防止无限循环
-	maxIterations := 100
+	// every iteration consumes at least one token, so a clause cannot need more iterations than the
+	// statement has bytes; a fixed cap of 100 silently dropped long predicates (the error is recoverable)
+	maxIterations := len(p.input) + 100
 	iterations := 0
 
 	var conditions []string
